@@ -112,6 +112,7 @@ func (e *Engine) verifyFunction(fc *FuncContract) *FuncResult {
 			res.Errors = append(res.Errors, fmt.Sprintf("%s:%d: call-site clause `call %s#%d` did not attach to any call in %s", c.File, c.Line, c.CallName, c.CallOrd, res.Short))
 		}
 	}
+	res.Errors = append(res.Errors, e.chanInvErrors(fc, fn)...)
 	for k := range fc.Loops {
 		if !vf.usedLoops[k] {
 			res.Errors = append(res.Errors, fmt.Sprintf("loop %d invariant did not attach in %s", k, res.Short))
